@@ -29,7 +29,11 @@ func (p plainBlock) Decrypt(dst, src []byte) { p.b.Decrypt(dst, src) }
 
 // gcmLen draws a length that combines the 256/128/64/32/16-byte kernels and a 0..15-byte tail, or uniform 0..1100.
 func gcmLen(t *rapid.T, label string) (int, string) {
-	switch gen.Pick(t, label+".lclass", "kernels", "kernels", "uniform", "small", "zero") {
+	switch gen.Pick(t, label+".lclass", "kernels", "kernels", "kernels", "kernels", "uniform", "uniform", "small", "small", "zero", "zero", "threshold") {
+	case "threshold":
+		// sizes at which bulk loops change shape (page, 256 blocks, 64 KiB) and just around them
+		base := []int{4096, 4096, 8192, 16384, 65536}[gen.Uniform(t, label+".thr", 0, 4)]
+		return base + gen.Uniform(t, label+".thrd", 0, 120) - 40, "threshold"
 	case "kernels":
 		n := 256*gen.Int(t, label+".a", 0, 3) + 128*gen.Int(t, label+".b", 0, 1) + 64*gen.Int(t, label+".c", 0, 1) +
 			32*gen.Int(t, label+".d", 0, 1) + 16*gen.Int(t, label+".e", 0, 1) + gen.Uniform(t, label+".f", 0, 15)
@@ -108,6 +112,10 @@ func drawGCMCase(t *rapid.T) *gcmCase {
 		switch gen.Pick(t, "nclass", "list", "list", "uniform", "wrap", "wrap") {
 		case "list":
 			nl = rapid.SampledFrom([]int{1, 2, 8, 11, 12, 13, 15, 16, 17, 31, 32, 33, 64, 127, 128, 129, 144, 255, 256, 300}).Draw(t, "nlen")
+			if gen.Uniform(t, "nalias", 0, 11) == 0 {
+				// nonce sizes that ALIAS 12 (the fast path) or 16 when the length is narrowed to 8 or 16 bits
+				nl = []int{256 + 12, 65536 + 12, 65536 + 12, 65536, 65536 + 16, 512 + 12}[gen.Uniform(t, "naliasv", 0, 5)]
+			}
 		case "uniform":
 			nl = gen.Uniform(t, "nlenU", 1, 300)
 		case "wrap":
